@@ -172,6 +172,11 @@ pub fn worker(plan: &Plan, a: &WorkerArgs) -> i32 {
             if !acc.failed {
                 acc.evals += 1;
                 acc.other_clause += (rep.viols.len() - rel.len()) as u64;
+                if rep.viols.len() > rel.len() && std::env::var("TV_DEBUG_OTHER").is_ok() {
+                    for v in rep.viols.iter().filter(|v| !relevant(v, &prop)).take(2) {
+                        eprintln!("OTHER [{}] {:?} {} :: {}", v.sig, v.props, eng.name(), v.msg);
+                    }
+                }
                 for l in &rep.labels {
                     *acc.labels.entry(l).or_insert(0) += 1;
                 }
